@@ -1,4 +1,6 @@
 import Pun.Lemmas.PBoxFrechet
+import Pun.Lemmas.PBoxMk
+import Pun.Lemmas.PBoxNeg
 /-!
 # C02 — default (Frechet) p-box arithmetic bounds every dependence, and tightly
 
@@ -11,9 +13,9 @@ lie strictly below `left[i]` and at most `n-1-i` strictly above `right[i]`.
 
 Proved here: validity of both bounds (sum: any operands; product: non-negative operands — negative
 operands are routed through negation, which conjugates this case, see `neg` in the model and the
-correspondence check), tightness of the left bound (the extremal anti-diagonal coupling attains it),
-the two `sort` calls of `frechet_op` are identities.  Not proved (kept as tie + oracle only): the
-straddling product (naive ∩ Balch), right-bound tightness (dual argument), general couplings that
+correspondence check), tightness of both bounds (the extremal anti-diagonal couplings attain them),
+the two `sort` calls of `frechet_op` are identities.  Right-bound tightness is proved by the dual coupling.  Not proved (kept as tie + oracle only): the
+straddling product (naive ∩ Balch), general couplings that
 are not permutations (Birkhoff mixture argument, cited).
 -/
 set_option linter.unusedSimpArgs false
@@ -60,6 +62,18 @@ theorem frechet_add_tight_left (n : Nat) (X Y : PB) (hX : WFS n X) (hY : WFS n Y
   rw [frechetOp_eq_raw (· + ·) add_mono2 X Y (by rw [hX.llen, hY.llen]) (by rw [hX.rlen, hY.rlen])
     hY.lsorted hX.rsorted] at hl
   exact frechetLeft_tight (· + ·) add_mono2 X.left Y.left n hX.llen hY.llen hX.lsorted hY.lsorted i l hl
+
+/-- **C02 tightness, sum (right bound).** -/
+theorem frechet_add_tight_right (n : Nat) (X Y : PB) (hX : WFS n X) (hY : WFS n Y) (i : Fin n)
+    (r : Rat) (hr : (frechetOp (· + ·) X Y).2[i.val]? = some r) :
+    ∃ σ : Equiv.Perm (Fin n),
+      (univ.filter (fun m : Fin n =>
+        r < X.right[m.val]'(by have := hX.rlen; omega) + Y.right[(σ m).val]'(by have := hY.rlen; omega))).card ≤ n - 1 - i.val ∧
+      n - i.val ≤ (univ.filter (fun m : Fin n =>
+        r ≤ X.right[m.val]'(by have := hX.rlen; omega) + Y.right[(σ m).val]'(by have := hY.rlen; omega))).card := by
+  rw [frechetOp_eq_raw (· + ·) add_mono2 X Y (by rw [hX.llen, hY.llen]) (by rw [hX.rlen, hY.rlen])
+    hY.lsorted hX.rsorted] at hr
+  exact frechetRight_tight (· + ·) add_mono2 X.right Y.right n hX.rlen hY.rlen hX.rsorted hY.rsorted i r hr
 
 /-- non-negative operand -/
 def NonNeg (p : PB) : Prop := (∀ v ∈ p.left, 0 ≤ v) ∧ (∀ v ∈ p.right, 0 ≤ v)
@@ -122,6 +136,153 @@ theorem frechet_add_sorted (n : Nat) (X Y : PB) (hX : WFS n X) (hY : WFS n Y) :
     frechetOp (· + ·) X Y = (frechetLeftRaw (· + ·) X.left Y.left, frechetRightRaw (· + ·) X.right Y.right) :=
   frechetOp_eq_raw (· + ·) add_mono2 X Y (by rw [hX.llen, hY.llen]) (by rw [hX.rlen, hY.rlen])
     hY.lsorted hX.rsorted
+
+/-- fully well-formed p-box: `n` steps, sorted bounds, `left ≤ right` at every step -/
+structure WF (n : Nat) (p : PB) : Prop extends WFS n p where
+  le : ∀ i (h : i < n), p.left[i]'(by omega) ≤ p.right[i]'(by omega)
+
+/-- **The public method** `X.add(Y, dependency='f')` (and the bare `X + Y` under the default
+setting) returns exactly the raw Frechet bounds — the constructor's switch, length normalisation and
+monotonicity check all pass — and the result is again well formed. -/
+theorem add_f_ok (n : Nat) (X Y : PB) (hX : WF n X) (hY : WF n Y) :
+    add n .f X Y = .ok ⟨frechetLeftRaw (· + ·) X.left Y.left, frechetRightRaw (· + ·) X.right Y.right⟩ ∧
+    WF n ⟨frechetLeftRaw (· + ·) X.left Y.left, frechetRightRaw (· + ·) X.right Y.right⟩ := by
+  have hs := frechet_add_sorted n X Y hX.toWFS hY.toWFS
+  have sl := frechetLeftRaw_sorted (· + ·) add_mono2 X.left Y.left (by rw [hX.llen, hY.llen]) hY.lsorted
+  have sr := frechetRightRaw_sorted (· + ·) add_mono2 X.right Y.right (by rw [hX.rlen, hY.rlen]) hX.rsorted
+  have ll : (frechetLeftRaw (· + ·) X.left Y.left).length = n := by rw [frechetLeftRaw_length, hX.llen]
+  have lr : (frechetRightRaw (· + ·) X.right Y.right).length = n := by rw [frechetRightRaw_length, hX.rlen]
+  have hle : ∀ i (h : i < n), (frechetLeftRaw (· + ·) X.left Y.left)[i]'(by omega) ≤
+      (frechetRightRaw (· + ·) X.right Y.right)[i]'(by omega) := fun i h =>
+    frechetRaw_le (· + ·) add_mono2 X.left X.right Y.left Y.right n hX.llen hX.rlen hY.llen hY.rlen
+      hX.rsorted hY.rsorted hX.le hY.le i h
+  refine ⟨?_, ⟨⟨ll, lr, sl, sr⟩, hle⟩⟩
+  unfold add
+  simp only [hs]
+  exact mk_arr_ok n _ _ ll lr sl sr (fun i h => hle i (by omega))
+
+/-- divisor support excludes zero -/
+def ZeroFree (p : PB) : Prop := (∀ v ∈ p.left, 0 < v) ∨ (∀ v ∈ p.right, v < 0)
+
+/-- **Full statement of C02 (validity part) for the public methods**, all four operations and all
+sign configurations.  Proved below for `add` (`C02Validity_add_partial`); the other operations
+reduce to it through negation / reciprocal / sign routing, which is established by the
+correspondence and the coupling oracle on the real code, not yet by a theorem. -/
+def C02Validity (o : Op) : Prop :=
+  ∀ (n : Nat) (X Y R : PB) (hX : WF n X) (hY : WF n Y), (o = .div → ZeroFree Y) →
+    binop n o .f X Y = .ok R →
+    ∀ (x y : Fin n → Rat), Sel n X hX.toWFS x → Sel n Y hY.toWFS y →
+    ∀ (σ : Equiv.Perm (Fin n)) (i : Fin n) (l r : Rat), R.left[i.val]? = some l → R.right[i.val]? = some r →
+      (univ.filter (fun m : Fin n => o.ap (x m) (y (σ m)) < l)).card ≤ i.val ∧
+      (univ.filter (fun m : Fin n => r < o.ap (x m) (y (σ m)))).card ≤ n - 1 - i.val
+
+/-- C02 validity for the public `add` / bare `+` — partial: the `add` instance of `C02Validity`
+(missing: `sub`, `mul`, `div` instances at the level of the public methods). -/
+theorem C02Validity_add_partial : C02Validity .add := by
+  intro n X Y R hX hY _ hR x y hx hy σ i l r hl hr
+  have h := (add_f_ok n X Y hX hY).1
+  simp only [binop] at hR
+  rw [h] at hR
+  have hRe : R = ⟨frechetLeftRaw (· + ·) X.left Y.left, frechetRightRaw (· + ·) X.right Y.right⟩ :=
+    (Except.ok.inj hR).symm
+  subst hRe
+  have hs := frechet_add_sorted n X Y hX.toWFS hY.toWFS
+  exact frechet_add_valid n X Y hX.toWFS hY.toWFS x y hx hy σ i l r (by rw [hs]; exact hl) (by rw [hs]; exact hr)
+
+/-- `-Y` of a well-formed p-box is well formed -/
+theorem neg_wf (n : Nat) (Y : PB) (hY : WF n Y) :
+    neg n Y = .ok ⟨Y.right.reverse.map (- ·), Y.left.reverse.map (- ·)⟩ ∧
+    WF n ⟨Y.right.reverse.map (- ·), Y.left.reverse.map (- ·)⟩ := by
+  refine ⟨neg_ok n Y hY.llen hY.rlen hY.lsorted hY.rsorted hY.le, ⟨⟨by simp [hY.rlen], by simp [hY.llen],
+    neg_rev_sorted _ hY.rsorted, neg_rev_sorted _ hY.lsorted⟩, ?_⟩⟩
+  intro i h
+  simp only [List.getElem_map, List.getElem_reverse, hY.llen, hY.rlen]
+  have := hY.le (n - 1 - i) (by omega)
+  linarith
+
+/-- C02 validity for the public `sub` / bare `-`: subtraction is Frechet addition of the negated
+operand, and negation mirrors selections and couplings (`y ↦ -y ∘ rev`, `σ ↦ rev ∘ σ`). -/
+theorem C02Validity_sub_partial : C02Validity .sub := by
+  intro n X Y R hX hY _ hR x y hx hy σ i l r hl hr
+  obtain ⟨hneg, hY'⟩ := neg_wf n Y hY
+  simp only [binop, sub, hneg, swapPO, bind, Except.bind] at hR
+  have key := C02Validity_add_partial n X _ R hX hY' (by intro h; cases h) (by simpa [binop] using hR)
+    x (fun m => - y (Fin.rev m)) hx
+    (by
+      intro m
+      have hm := m.isLt
+      have hy' := hy (Fin.rev m)
+      simp only [Fin.val_rev] at hy'
+      have hrl := hY.rlen
+      have hll := hY.llen
+      constructor
+      · simp only [List.getElem_map, List.getElem_reverse]
+        have e : Y.right[Y.right.length - 1 - m.val]'(by omega) = Y.right[n - (m.val + 1)]'(by omega) := by
+          congr 1; omega
+        rw [e]; linarith [hy'.2]
+      · simp only [List.getElem_map, List.getElem_reverse]
+        have e : Y.left[Y.left.length - 1 - m.val]'(by omega) = Y.left[n - (m.val + 1)]'(by omega) := by
+          congr 1; omega
+        rw [e]; linarith [hy'.1])
+    (σ.trans Fin.revPerm) i l r hl hr
+  simp only [Op.ap, Equiv.trans_apply, Fin.revPerm_apply, Fin.rev_rev] at key ⊢
+  have e : ∀ m, x m - y (σ m) = x m + -y (σ m) := fun m => sub_eq_add_neg _ _
+  simp only [e]
+  exact key
+
+theorem not_straddles_of_nonneg (p : PB) (h : NonNeg p) : straddlesZero p = false := by
+  unfold straddlesZero
+  have : ¬ minL 0 p.left < 0 := by
+    by_cases hne : p.left = []
+    · simp [hne, minL]
+    · exact not_lt.mpr (h.1 _ (minL_spec 0 p.left hne).1)
+  simp [this]
+
+/-- the public product of two non-negative, not identically zero p-boxes under Frechet returns the raw
+rule for the clamped (monotone) product, and the result is well formed -/
+theorem mul_f_pos_ok (n : Nat) (X Y : PB) (hX : WF n X) (hY : WF n Y) (pX : NonNeg X) (pY : NonNeg Y)
+    (hxh : 0 < hi X) (hyh : 0 < hi Y) :
+    mul n .f X Y = .ok ⟨frechetLeftRaw mulPos X.left Y.left, frechetRightRaw mulPos X.right Y.right⟩ := by
+  have sl := frechetLeftRaw_sorted mulPos mulPos_mono2 X.left Y.left (by rw [hX.llen, hY.llen]) hY.lsorted
+  have sr := frechetRightRaw_sorted mulPos mulPos_mono2 X.right Y.right (by rw [hX.rlen, hY.rlen]) hX.rsorted
+  have ll : (frechetLeftRaw mulPos X.left Y.left).length = n := by rw [frechetLeftRaw_length, hX.llen]
+  have lr : (frechetRightRaw mulPos X.right Y.right).length = n := by rw [frechetRightRaw_length, hX.rlen]
+  have hle : ∀ i (h : i < n), (frechetLeftRaw mulPos X.left Y.left)[i]'(by omega) ≤
+      (frechetRightRaw mulPos X.right Y.right)[i]'(by omega) := fun i h =>
+    frechetRaw_le mulPos mulPos_mono2 X.left X.right Y.left Y.right n hX.llen hX.rlen hY.llen hY.rlen
+      hX.rsorted hY.rsorted hX.le hY.le i h
+  have hop : frechetOp (· * ·) X Y =
+      (frechetLeftRaw mulPos X.left Y.left, frechetRightRaw mulPos X.right Y.right) := by
+    rw [frechetOp_mul_eq X Y pX pY]
+    exact frechetOp_eq_raw mulPos mulPos_mono2 X Y (by rw [hX.llen, hY.llen]) (by rw [hX.rlen, hY.rlen])
+      hY.lsorted hX.rsorted
+  unfold mul frechetMul frechetMulNoStraddle classicFrechet
+  simp only [not_straddles_of_nonneg X pX, not_straddles_of_nonneg Y pY, Bool.or_self, Bool.false_eq_true,
+    if_false, not_le.mpr hxh, not_le.mpr hyh, decide_false, hop]
+  exact mk_arr_ok n _ _ ll lr sl sr (fun i h => hle i (by omega))
+
+/-- C02 validity for the public `mul` / bare `*` on non-negative, not identically zero operands —
+partial: the positive×positive instance of `C02Validity .mul` (negative operands are routed through
+`neg`, see `neg_wf`; zero-straddling operands through naive ∩ Balch: correspondence + oracle only). -/
+theorem C02Validity_mul_pos_partial (n : Nat) (X Y R : PB) (hX : WF n X) (hY : WF n Y)
+    (pX : NonNeg X) (pY : NonNeg Y) (hxh : 0 < hi X) (hyh : 0 < hi Y)
+    (hR : binop n .mul .f X Y = .ok R)
+    (x y : Fin n → Rat) (hx : Sel n X hX.toWFS x) (hy : Sel n Y hY.toWFS y)
+    (σ : Equiv.Perm (Fin n)) (i : Fin n) (l r : Rat)
+    (hl : R.left[i.val]? = some l) (hr : R.right[i.val]? = some r) :
+    (univ.filter (fun m : Fin n => x m * y (σ m) < l)).card ≤ i.val ∧
+    (univ.filter (fun m : Fin n => r < x m * y (σ m))).card ≤ n - 1 - i.val := by
+  simp only [binop] at hR
+  rw [mul_f_pos_ok n X Y hX hY pX pY hxh hyh] at hR
+  have hRe := (Except.ok.inj hR).symm
+  subst hRe
+  have hop : frechetOp (· * ·) X Y =
+      (frechetLeftRaw mulPos X.left Y.left, frechetRightRaw mulPos X.right Y.right) := by
+    rw [frechetOp_mul_eq X Y pX pY]
+    exact frechetOp_eq_raw mulPos mulPos_mono2 X Y (by rw [hX.llen, hY.llen]) (by rw [hX.rlen, hY.rlen])
+      hY.lsorted hX.rsorted
+  exact frechet_mul_pos_valid n X Y hX.toWFS hY.toWFS pX pY x y hx hy σ i l r
+    (by rw [hop]; exact hl) (by rw [hop]; exact hr)
 
 /-! non-vacuity: a concrete pair of 3-step boxes meets the hypotheses, and the rule computes -/
 example : WFS 3 ⟨[1, 2, 3], [2, 3, 4]⟩ := ⟨rfl, rfl, by decide, by decide⟩
